@@ -479,3 +479,45 @@ package participle
 //@   use catAssoc(out, encChar(ucValue(s, quote), ucMulti(s, quote)), unq(ucTail(s, quote), quote)) at loop 1
 //@   use catEmpty(out) at loop 1
 //@   use catEmpty(unq(old(s)[1:len(old(s))-1], old(s)[0])) at loop 1 entry
+
+// Unquote's mapper: the value becomes the unquoted text; type and position are untouched; an invalid
+// escape sequence is a located error.
+//@ func Unquote$1 [C18 C06]
+//@   ensures result1 == nil ==> result0.Type == t.Type && result0.Pos == t.Pos
+//@   ensures result1 == nil && t.Value[0] == '`' ==> result0.Value == t.Value[1:len(t.Value)-1]
+//@   ensures result1 == nil && t.Value[0] != '`' ==> result0.Value == unq(t.Value[1:len(t.Value)-1], t.Value[0])
+//@   ensures result1 != nil ==> implements(result1, Error) && result0 == t
+
+// Upper's mapper: only the value changes.
+//@ func Upper$1 [C18]
+//@   ensures result1 == nil && result0.Type == token.Type && result0.Pos == token.Pos && result0.Value == uf("fn_strings.ToUpper_r0", "Str", token.Value)
+
+// A user Mapper: assumed to be a function of the token (it is called exactly once per token, see below).
+//@ interface Mapper.call
+//@   params fn, token
+//@   function
+
+// The mapping lexer calls the mapper exactly once on every token of the inner lexer, in order, and
+// propagates lexing errors without calling it.
+//@ func (*mappingLexer).Next [C18 C15]
+//@   requires m.Lexer != nil && m.mapper != nil
+//@   before call Mapper.call#1: assert arg1 == t [C18]
+
+// The combined mapper built by Build: mappers registered for all tokens first, then those registered
+// for the token's own type, each applied once, in registration order, stopping at the first error.
+//@ func Build$1 [C18]
+//@   requires @assumed forall(k, 0, len(mappers[t.Type]), mappers[t.Type][k] != nil) && forall(k, 0, len(mappers[lexer.EOF]), mappers[lexer.EOF][k] != nil)
+//@   loop 1 invariant -1 <= rangeindex && rangeindex < len(combined)
+//@   loop 1 invariant len(combined) == len(mappers[lexer.EOF]) + len(mappers[old(t).Type])
+//@   loop 1 invariant forall(k, 0, len(mappers[lexer.EOF]), combined[k] == mappers[lexer.EOF][k])
+//@   loop 1 invariant forall(k, 0, len(mappers[old(t).Type]), combined[len(mappers[lexer.EOF]) + k] == mappers[old(t).Type][k])
+//@   loop 1 decreases len(combined) - rangeindex
+//@   at return 1: assert result1 == nil && rangeindex + 1 >= len(combined)
+//@   at return 2: assert result1 != nil
+
+// The mapping definition wraps the lexer of the inner definition with the same mapper; it offers no
+// LexString/LexBytes fast path, so every entry point goes through the mapper (C15).
+//@ func (*mappingLexerDef).Lex [C18 C15]
+//@   requires m.l != nil
+//@   ensures result1 == nil ==> typeis(result0, *mappingLexer) && result0.(*mappingLexer).mapper == m.mapper && result0.(*mappingLexer).Lexer != nil
+//@   before call Definition.Lex#1: assert arg1 == filename && arg2 == r
